@@ -73,7 +73,7 @@ class World:
                      A(np.array([7.0, 5.0]), unit="m"), A(9.0, unit="m"),
                      V(np.array([100.0, 300.0, 200.0]), np.array([4.0, 6.0, 5.0]), unit="cm"),
                      A(np.array([2, 0, 1], dtype=np.int64)), A(np.array([500.0, 700.0, 100.0]), unit="cm"),
-                     A(np.array([6.0, 2.0, 4.0], dtype=np.float32), unit="m")]
+                     A(np.array([6.0, 2.0, 4.0], dtype=np.float32), unit="m"), A(np.array([900.0, 900.0, 900.0]), unit="cm")]
         self.maskbuf = np.zeros(3, dtype=bool)        # one mask buffer reused (rewritten in place) by every mask index of length 3
         self.groups = [osyris.Datagroup(), osyris.Datagroup()]
         self.dsets = [osyris.Dataset()]
@@ -129,10 +129,18 @@ class World:
                 del G[a["g"] - 1][a["k"]]
             elif op == "pop":
                 self.res = {"t": "obj", "o": self.oid(G[a["g"] - 1].pop(a["k"]))}
+            elif op == "popd":
+                r = G[a["g"] - 1].pop(a["k"], None)
+                if r is not None:
+                    self.res = {"t": "obj", "o": self.oid(r)}
             elif op == "get":
                 g, k = G[a["g"] - 1], a["k"]
                 sentinel = object()
-                got = g.get(k, sentinel)
+                if self.nstep % 2:
+                    got = g.get(k)              # the default of the default is None
+                    got = sentinel if got is None else got
+                else:
+                    got = g.get(k, sentinel)
                 try:
                     direct = g[k]
                 except KeyError:
@@ -227,10 +235,18 @@ class World:
                 del D[a["d"] - 1][a["k"]]
             elif op == "dspop":
                 self.res = {"t": "grp", "g": self.gid(D[a["d"] - 1].pop(a["k"]))}
+            elif op == "dspopd":
+                r = D[a["d"] - 1].pop(a["k"], None)
+                if r is not None:
+                    self.res = {"t": "grp", "g": self.gid(r)}
             elif op == "dsget":
                 d, k = D[a["d"] - 1], a["k"]
                 sentinel = object()
-                got = d.get(k, sentinel)
+                if self.nstep % 2:
+                    got = d.get(k)
+                    got = sentinel if got is None else got
+                else:
+                    got = d.get(k, sentinel)
                 try:
                     direct = d[k]
                 except KeyError:
